@@ -12,6 +12,10 @@ structure Fits2 (s : App) (c : CSet) : Prop where
   shadow : noShadow s s.index = true
   total : Comet.total c + idxPow s s.index ≤ maxTotalPower
   lastTotal : 0 ≤ s.lastTotal ∧ s.lastTotal ≤ maxTotalPower
+  /-- the two pools cover the tokens of the records they stand for (what the transfer for the validators jailed in this
+      block, which leave the bonded pool at the EndBlocker, needs) -/
+  poolNb : sumF nbTok s.vals ≤ s.notBonded
+  poolB : sumF bTok s.vals ≤ s.bonded
 
 theorem cand_of_active (v : Val) (h : Active v) : cand v = true := by
   simp [cand, h.2.1, h.2.2.1]
@@ -22,11 +26,23 @@ theorem not_cand_of_gone (v : Val) (h : Gone v) : cand v = false := by
 theorem not_cand_of_unb (v : Val) (h : Unb v) : cand v = false := by
   simp [cand, h.2.2.1, powerOf]
 
+theorem not_cand_of_jl (v : Val) (h : Jl v) : cand v = false := by
+  simp [cand, h.1]
+
 theorem active_of_cand (s : App) (m : St s) (v : Val) (hv : v ∈ s.vals) (hc : cand v = true) : Active v := by
-  rcases m.cls v hv with h | h | h
+  rcases m.cls v hv with h | h | h | h
   · exact h
   · rw [not_cand_of_gone v h] at hc; cases hc
   · rw [not_cand_of_unb v h] at hc; cases hc
+  · rw [not_cand_of_jl v h] at hc; cases hc
+
+/-- the power-table entry of a record, class by class -/
+theorem St.lastA {s : App} (m : St s) (v : Val) (hv : v ∈ s.vals) (h : Active v) : alookup v.op s.last = some (cur v) := by
+  rw [m.last v hv h.2.1]; simp [lastOf, h.1]
+theorem St.lastG {s : App} (m : St s) (v : Val) (hv : v ∈ s.vals) (h : Gone v) : alookup v.op s.last = some 0 := by
+  rw [m.last v hv h.2.1]; simp [lastOf, h.1, cur, h.2.2.1, powerOf]
+theorem St.lastU {s : App} (m : St s) (v : Val) (hv : v ∈ s.vals) (h : Unb v) : alookup v.op s.last = none := by
+  rw [m.last v hv h.2.1]; simp [lastOf, h.1]
 
 theorem occ_pos_of_active (s : App) (m : St s) (v : Val) (hv : v ∈ s.vals) (ha : Active v) : occ v.op s.index > 0 := by
   have io := m.idx v hv
@@ -43,10 +59,11 @@ theorem not_visited_of_not_active (s : App) (m : St s) (v : Val) (hv : v ∈ s.v
     visitedB s s.index v.op = false := by
   have hg := mem_vals_getVal s m.sorted v hv
   have : cand v = false := by
-    rcases m.cls v hv with h | h | h
+    rcases m.cls v hv with h | h | h | h
     · exact absurd h ha
     · exact not_cand_of_gone v h
     · exact not_cand_of_unb v h
+    · exact not_cand_of_jl v h
   simp [visitedB, hg, this]
 
 theorem lastOf_active (v : Val) (h : Active v) : lastOf v = some (cur v) := by simp [lastOf, h.1]
@@ -68,7 +85,7 @@ theorem pre_of_St (s : App) (c : CSet) (m : St s) (k : Cm s c) (f : Fits2 s c) :
       have hvm := hmem _ _ hv
       have ha := active_of_cand s m v hvm hc
       have io := m.idx v hvm
-      have hl : alookup op s.last = some (cur v) := by rw [← hvop, m.last v hvm, lastOf_active v ha]
+      have hl : alookup op s.last = some (cur v) := by rw [← hvop]; exact m.lastA v hvm ha
       by_cases hu : v.op ∈ s.updated
       · have := (io.a2 hu).2.1; rw [hvop] at this; exact ⟨by omega, fun _ => hl⟩
       · have := io.a1 ha hu; rw [hvop] at this; exact ⟨by omega, fun _ => hl⟩
@@ -88,23 +105,29 @@ theorem pre_of_St (s : App) (c : CSet) (m : St s) (k : Cm s c) (f : Fits2 s c) :
   · intro op v hv hl hvis
     have hvop := getVal_op _ _ _ hv
     have hvm := hmem _ _ hv
-    rcases m.cls v hvm with ha | hg | hu
+    rcases m.cls v hvm with ha | hg | hu | hj
     · have := visited_of_active s m v hvm ha
       rw [hvop, hvis] at this; cases this
     · exact ⟨hg.1, k.gone v hvm hg⟩
-    · exfalso; apply hl; rw [← hvop, m.last v hvm, lastOf_unb v hu]
+    · exfalso; apply hl; rw [← hvop]; exact m.lastU v hvm hu
+    · have hb : v.status = .bonded := (m.lastJ v hvm hj.1).mp (by rw [hvop]; exact hl)
+      exact ⟨hb, k.jb v hvm hj.1 hb⟩
   · intro key p hkp
     obtain ⟨v, hv, hk, hb⟩ := k.known key p hkp
     have hg := mem_vals_getVal s m.sorted v hv
     refine ⟨v, hg, hk, ?_⟩
-    rw [m.last v hv]; simp [lastOf, hb]
+    by_cases hj : v.jailed = true
+    · exact (m.lastJ v hv hj).mpr hb
+    · have hj' : v.jailed = false := by simpa using hj
+      rw [m.last v hv hj']; simp [lastOf, hb]
   · intro op v hv hb hj
     have hvop := getVal_op _ _ _ hv
     have hvm := hmem _ _ hv
-    rcases m.cls v hvm with ha | hg | hu
+    rcases m.cls v hvm with ha | hg | hu | hjl
     · left; rw [← hvop]; exact visited_of_active s m v hvm ha
-    · right; rw [← hvop, m.last v hvm, lastOf_gone v hg]; simp
+    · right; rw [← hvop, m.lastG v hvm hg]; simp
     · rw [hu.1] at hb; cases hb
+    · rw [hjl.1] at hj; cases hj
   · refine { cNodup := ksorted_nodup _ k.cSorted, cNonneg := k.cNonneg, stays := ?_, total := f.total }
     obtain ⟨x, hx, ha⟩ := m.hasActive
     exact ⟨x.op, x, mem_vals_getVal s m.sorted x hx, visited_of_active s m x hx ha⟩
@@ -113,13 +136,14 @@ theorem pre_of_St (s : App) (c : CSet) (m : St s) (k : Cm s c) (f : Fits2 s c) :
             recs := (by
               intro e he
               obtain ⟨v, hv, hu, h1, h2⟩ := m.qRecs e he
-              exact ⟨v, hv, hu.1, h1, h2⟩)
+              exact ⟨v, hv, hu, h1, h2⟩)
             sound := (by
               intro op v hv
-              rcases m.cls v (hmem _ _ hv) with ha | hg | hu
+              rcases m.cls v (hmem _ _ hv) with ha | hg | hu | hj
               · left; exact ha.2.2.2
               · right; exact hg.2.2.1
-              · right; exact hu.2.2.1) }
+              · right; exact hu.2.2.1
+              · left; exact hj.2) }
 
 end App
 end PoaVerif
